@@ -170,8 +170,21 @@ def run(res, tier, sc, drv, ws):
         gate.append({"expr": pre + lit, "status": st_, "expected": "rejected" if expect_reject else "ok"})
         if (st_ == "rejected") != expect_reject:
             res.violation("compile_sources %s `%s%s`" % ("accepts" if expect_reject else "rejects", pre, lit), {"property": "C06", "program": prog, "status": st_})
+    # reject corpus: one program per fault class of the property, each must be rejected by the real compile_sources.
+    # This is a gate (concrete programs), not a solver verdict; it is listed separately in the evidence.
+    import glob
+    from vlib.common import VERIF
+    rejects = []
+    for fpath in sorted(glob.glob(os.path.join(VERIF, "corpus_reject", "*.sam"))):
+        prog = open(fpath).read()
+        st_ = compile_status(drv, sc, prog)
+        rejects.append({"program": os.path.basename(fpath), "status": st_})
+        if st_ != "rejected":
+            res.violation("compile_sources %s the ill-formed program %s" % ("accepts" if st_ == "ok" else "answers %s for" % st_, os.path.basename(fpath)),
+                          {"property": "C06", "program": prog, "status": st_, "file": fpath})
+    res.coverage["reject_corpus"] = rejects
     res.coverage.update({
-        "states": len(paths), "transitions": obligations, "traces_validated_against_impl": len(gate),
+        "states": len(paths), "transitions": obligations, "traces_validated_against_impl": len(gate) + len(rejects),
         "obligations": obligations, "discharged": discharged, "path_classes": classes,
         "functions_encoded": [f.name], "gate_programs": gate, "solver_stats": dict(smt.STATS),
         "explanation": "states = MIR paths of process_raw_token; every path is one obligation over all literal values and pending-token kinds",
